@@ -25,10 +25,29 @@ RULE = (
 )
 
 
-def form_case(ctx, form):
+def model_call(ctx, form, root="data"):
+    """The structural pipeline plus the control attributes (`controls.model`)."""
+    if form.get("entities"):
+        return {"outcome": "unsupported", "why": "entities sheet"}
+    rows = [formobs.canon_cells(x) for x in form["survey"]]
+    lists = sorted({x.get("list_name", x.get("list name", "")) for x in form.get("choices", [])})
+    settings = formobs.canon_cells(form["settings"][0]) if form.get("settings") else []
+    for k, v in settings:
+        if k == "name":
+            root = v
+    return ctx.driver.call("controls.model", rows=rows, lists=lists, settings=settings, root=root)
+
+
+def attr_str(a):
+    return "{" + ", ".join(f"{k}={v!r}" for k, v in sorted(a.items())) + "}"
+
+
+def form_case(ctx, form, family="structure"):
     r = impl.run(form)
-    m = formcommon.model_call(ctx, form)
-    ctx.count(f"impl:{r['class']}/model:{m['outcome']}")
+    m = model_call(ctx, form)
+    ctx.count(f"{family}: impl:{r['class']}/model:{m['outcome']}")
+    if m["outcome"] == "unsupported":
+        ctx.count("unsupported: " + m.get("why", "?"))
     nontrivial = False
     if r["ok"] and m["outcome"] == "ok":
         obs = formobs.observe(r["xform"])
@@ -42,12 +61,37 @@ def form_case(ctx, form):
         if [list(x) for x in obs["ctl"]] != [list(x) for x in m["ctl"]]:
             ctx.fail(Failure("body-shape", f"body controls differ: impl {obs['ctl']} spec {m['ctl']}", {"form": form}))
             ctx.mismatch("body controls", form, obs["ctl"], m["ctl"])
+        else:
+            # second half: the attributes of every body control (finite maps; `ref` / `nodeset` are the refs above)
+            octl = formobs.observe_controls(r["xform"])
+            mattrs = [[t, dict(a)] for t, a in m["ctlAttrs"]]
+            sattrs = [dict(a) for a in m["specAttrs"]]
+            if not (len(octl) == len(mattrs) == len(sattrs)) or any(o[0] != x[0] for o, x in zip(octl, mattrs)):
+                ctx.mismatch("control list of the attribute model is not aligned with the body model", form,
+                             [o[:2] for o in octl], [x[0] for x in mattrs])
+            else:
+                for (tag, ref, a), (_, ma), sa in zip(octl, mattrs, sattrs):
+                    if a:
+                        nontrivial = True
+                        ctx.count("controls with attributes")
+                        for k in a:
+                            ctx.count("attr " + tag + "/" + k)
+                    if a != sa:
+                        ctx.fail(Failure("body-attrs", f"attributes of <{tag} ref={ref}> are {attr_str(a)}, the row dictates "
+                                         f"{attr_str(sa)}", {"form": form}, extra={"tag": tag, "ref": ref, "impl": a, "spec": sa}))
+                    if a != ma:
+                        ctx.mismatch(f"attributes of <{tag} ref={ref}>", form, attr_str(a), attr_str(ma))
+                    if ma != sa:
+                        ctx.mismatch(f"model vs spec attributes of <{tag} ref={ref}> (body_attrs_of_row)", form, attr_str(sa), attr_str(ma))
     elif r["ok"] and m["outcome"] == "error":
         ctx.mismatch("model rejects, implementation accepts", form, "ok", m["err"])
         ctx.fail(Failure("accepted-malformed", f"sheet the grammar rejects was accepted: {m['err']}", {"form": form}))
     elif r["class"] == "pyxform" and m["outcome"] == "ok":
         ctx.mismatch("implementation rejects, model accepts", form, r["msg"][:300], "ok")
         ctx.fail(Failure("rejected-wellformed", "well-formed sheet rejected: " + r["msg"][:200], {"form": form}))
+    elif r["class"] == "internal" and m["outcome"] in ("ok", "error"):
+        ctx.mismatch("implementation crashes", form, r["msg"][:300], m["outcome"])
+        ctx.fail(Failure("crash", "internal exception " + r["msg"][:200] + " at " + r.get("site", ""), {"form": form}))
     ctx.record({"form": form}, nontrivial)
 
 
@@ -56,7 +100,7 @@ ALL_SIMPLE = None
 
 def explore(ctx, factor, bs):
     rng = ctx.rng
-    n = ctx.pick(1200, 30000) * factor
+    n = ctx.pick(600, 20000) * factor
     import gen
     for i in range(n):
         form = formcommon.structure_form(rng, tier_big=not ctx.quick())
@@ -71,6 +115,9 @@ def explore(ctx, factor, bs):
                 rows.append(row)
             form["survey"] = rows
         form_case(ctx, form)
+    import controls_gen
+    for i in range(ctx.pick(700, 20000) * factor):
+        form_case(ctx, controls_gen.attr_form(rng, big=not ctx.quick()), family="attributes")
 
 
 def replay(ctx, payload, bs):
